@@ -186,3 +186,174 @@ int yylex(void) {
   return 0;
 }
 '''
+
+
+# ---------------------------------------------------------------------------------------------------------------------
+# clex.l -> a C scanner that runs the *verbatim* rule actions (flex is not installed).  Matching is done with POSIX
+# extended regular expressions anchored at the current position (regexec gives the longest match), earliest rule on
+# ties; `input()` reads the next byte of the file, as in a flex scanner.  The Python `Lexer` above is an independent
+# implementation of the same rules: the checks run both and compare.
+def read_rules_with_actions(path):
+    """[(lex pattern, action C code)] in file order, plus the user code after the second %%"""
+    src = open(path).read()
+    parts = src.split('\n%%\n')
+    rules_sec = parts[1]
+    user = parts[2] if len(parts) > 2 else ''
+    out = []
+    lines = rules_sec.split('\n')
+    i = 0
+    while i < len(lines):
+        line = lines[i]
+        if not line.strip():
+            i += 1
+            continue
+        j = 0
+        inq = inb = False
+        while j < len(line):
+            ch = line[j]
+            if ch == '\\':
+                j += 2
+                continue
+            if inq:
+                inq = ch != '"'
+            elif inb:
+                inb = ch != ']'
+            elif ch == '"':
+                inq = True
+            elif ch == '[':
+                inb = True
+            elif ch in ' \t':
+                break
+            j += 1
+        pat = line[:j]
+        action = line[j:].strip()
+        depth = action.count('{') - action.count('}')
+        while depth > 0:
+            i += 1
+            action += '\n' + lines[i]
+            depth += lines[i].count('{') - lines[i].count('}')
+        out.append((pat, action))
+        i += 1
+    return out, user
+
+
+def lex2ere(p, defs):
+    """lex pattern -> POSIX ERE (as a Python str with the real characters; later rendered as a C string literal)"""
+    esc = {'n': '\n', 't': '\t', 'v': '\v', 'f': '\f', 'r': '\r', '\\': '\\', '"': '"'}
+    special = set('.[]()*+?{}|^$\\')
+    out = ''
+    i = 0
+    while i < len(p):
+        c = p[i]
+        if c == '"':
+            j = i + 1
+            lit = ''
+            while p[j] != '"':
+                if p[j] == '\\':
+                    lit += esc.get(p[j + 1], p[j + 1])
+                    j += 2
+                else:
+                    lit += p[j]
+                    j += 1
+            out += '(' + ''.join('\\' + ch if ch in special else ch for ch in lit) + ')'
+            i = j + 1
+        elif c == '{' and re.match(r'\{[A-Z]+\}', p[i:]):
+            m = re.match(r'\{([A-Z]+)\}', p[i:])
+            out += '(' + lex2ere(defs[m.group(1)], defs) + ')'
+            i += m.end()
+        elif c == '[':
+            j = i + 1
+            neg = False
+            if p[j] == '^':
+                neg = True
+                j += 1
+            members = []
+            first = True
+            while p[j] != ']' or first:
+                if p[j] == '\\':
+                    members.append(esc.get(p[j + 1], p[j + 1]))
+                    j += 2
+                else:
+                    members.append(p[j])
+                    j += 1
+                first = False
+            # POSIX bracket expression: no escapes; ']' first, '-' last, '^' not first
+            ms = members
+            body = ''
+            if ']' in ms:
+                body += ']'
+            rng = ''.join(m for m in ms if m not in (']', '^'))
+            # keep ranges like a-z intact (members list keeps '-' between endpoints in order)
+            body += rng
+            if '^' in ms:
+                body += '^'
+            out += '[' + ('^' if neg else '') + body + ']'
+            i = j + 1
+        elif c == '\\':
+            ch = esc.get(p[i + 1], p[i + 1])
+            out += ('\\' + ch) if ch in special else ch
+            i += 2
+        elif c == '.':
+            out += '[^\n]'
+            i += 1
+        else:
+            out += c
+            i += 1
+    return out
+
+
+def c_string(s):
+    return '"' + ''.join('\\%03o' % ord(ch) if (ord(ch) < 32 or ord(ch) > 126 or ch in '"\\?') else ch for ch in s) + '"'
+
+
+def gen_scanner_c(path):
+    src = open(path).read()
+    defs_sec = src.split('\n%%\n')[0]
+    defs = {}
+    for line in defs_sec.split('\n'):
+        m = re.match(r'^([A-Z]+)\s+(\S.*)$', line)
+        if m:
+            defs[m.group(1)] = m.group(2).strip()
+    rules, user = read_rules_with_actions(path)
+    pats = [c_string('^(' + lex2ere(p, defs) + ')') for p, _ in rules]
+    cases = '\n'.join(f'      case {i}: {a if a else ";"} break;' for i, (_, a) in enumerate(rules))
+    return r"""
+/* generated from clex.l by tools/minilex.py: POSIX-regex scanner running the verbatim rule actions */
+#include <stdio.h>
+#include <stdlib.h>
+#include <string.h>
+#include <regex.h>
+#include "defs.h"
+FILE *yyin;
+char *yytext;
+int yyleng;
+static char *yy_buf; static long yy_len, yy_pos;
+#define input() (yy_pos < yy_len ? (int)(unsigned char)yy_buf[yy_pos++] : EOF)
+#define unput(c) (yy_pos--)
+static const char *yy_pat[] = { """ + ',\n  '.join(pats) + r""" };
+#define YY_NRULES ((int)(sizeof yy_pat / sizeof yy_pat[0]))
+int yylex(void) {
+  static regex_t re[sizeof yy_pat / sizeof yy_pat[0]];
+  long cap = 1 << 16; yy_buf = (char *)malloc(cap); yy_len = 0;
+  for (;;) { size_t n = fread(yy_buf + yy_len, 1, cap - yy_len - 1, yyin); if (n == 0) break; yy_len += n; if (yy_len + 1 >= cap) { cap *= 2; yy_buf = (char *)realloc(yy_buf, cap); } }
+  yy_buf[yy_len] = 0;
+  for (int i = 0; i < YY_NRULES; i++) if (regcomp(&re[i], yy_pat[i], REG_EXTENDED)) { fprintf(stderr, "regcomp failed for rule %d\n", i); exit(3); }
+  yy_pos = 0;
+  while (yy_pos < yy_len) {
+    int best = -1; long bestlen = 0;
+    if (yy_buf[yy_pos] == 0) { fprintf(stderr, "NUL byte in input\n"); exit(3); }
+    for (int i = 0; i < YY_NRULES; i++) {
+      regmatch_t m[1];
+      if (regexec(&re[i], yy_buf + yy_pos, 1, m, 0) == 0 && m[0].rm_so == 0 && (long)m[0].rm_eo > bestlen) { best = i; bestlen = m[0].rm_eo; }
+    }
+    if (best < 0) { fputc(yy_buf[yy_pos++], stdout); continue; }   /* flex's default rule: echo */
+    yytext = (char *)malloc(bestlen + 1); memcpy(yytext, yy_buf + yy_pos, bestlen); yytext[bestlen] = 0; yyleng = (int)bestlen;
+    yy_pos += bestlen;
+    switch (best) {
+""" + cases + r"""
+    }
+    free(yytext); yytext = NULL;
+  }
+  return 0;
+}
+""" + user
